@@ -235,9 +235,22 @@ import monkeytype.typing as MT  # noqa: E402
 POSITIONS = (
     "arg", "arg-in-list", "arg-in-tuple", "arg-dict-value-strkey", "arg-dict-value-intkey", "arg-dict-key", "arg-in-set",
     "arg-defaultdict-value", "arg-in-list-in-list", "arg-in-tuple-in-tuple", "arg-in-dict-in-dict", "return", "return-in-list", "yield", "receiver", "global-unrelated", "global-named-like-function",
-    "caller-local", "first-arg-of-unresolvable",
+    "caller-local", "first-arg-of-unresolvable", "global-bound-method",
 )
 _RET_OP = sorted(RETURN_OPS)[0]
+
+
+import types  # noqa: E402
+
+
+def _ret_offset(code):
+    import opcode as _op
+
+    raw = code.co_code
+    for i in range(0, len(raw), 2):
+        if raw[i] in (_op.opmap.get("RETURN_VALUE"), _op.opmap.get("RETURN_CONST")):
+            return i
+    raise AssertionError("no return instruction")
 
 
 class _Globals(dict):
@@ -253,7 +266,7 @@ def hookfree_body(t, k):
         ASSUME(kname in TW.HASHABLE)
     if pos in ("global-named-like-function", "caller-local"):
         ASSUME(kname in TW.CALLABLE)
-    if pos == "receiver":
+    if pos in ("receiver", "global-bound-method"):
         ASSUME(kname in TW.HAS_METH)
     wrapped = {
         "arg": lambda: obj, "arg-in-list": lambda: [obj], "arg-in-tuple": lambda: (obj, 1), "arg-dict-value-strkey": lambda: {"a": obj},
@@ -262,8 +275,21 @@ def hookfree_body(t, k):
         "arg-in-tuple-in-tuple": lambda: ((obj,),), "arg-in-dict-in-dict": lambda: {"a": {"a": obj}}, "return": lambda: obj, "return-in-list": lambda: [obj], "yield": lambda: obj,
     }
     value = wrapped[pos]() if pos in wrapped else obj
-    logger = ListLogger()
+    # the logger may fail (fault containment must not be paid for with user code: e.g. formatting the failed
+    # trace for the log calls repr() on a bound method's __self__)
+    log_fails = t.take(2) == 1
+    logger = FaultyLogger(True, ValueError) if log_fails else ListLogger()
     tracer = CallTracer(logger, k, None, None)
+    import logging
+
+    class _Formatting(logging.Handler):
+        def emit(self, record):
+            self.format(record)  # what any real handler does: %-format the message with its arguments
+
+    mt_log = logging.getLogger("monkeytype")
+    saved_level, handler = mt_log.level, _Formatting()
+    mt_log.setLevel(logging.DEBUG)
+    mt_log.addHandler(handler)
     installed = []
     if _V.UNDER_ENGINE:
         # the engine's isinstance never consults __class__; CPython's does (contract model, validated natively every run)
@@ -283,8 +309,16 @@ def hookfree_body(t, k):
                 tracer(fr, "call", None)
             fr.f_code.co_code = [_RET_OP]
             tracer(fr, "return", value if pos.startswith("return") else None)
-            if len(logger.traces) != 1:
+            if (logger.logged if log_fails else len(logger.traces)) != 1:
                 return check(False, lambda: f"{kname} at {pos}: no trace logged (type collection failed?)")
+        elif pos == "global-bound-method":
+            # the module exports a bound method of a singleton under the function's name (`register = _registry.register`)
+            code = type(obj).meth.__code__
+            g = _Globals()
+            g["meth"] = types.MethodType(type(obj).__dict__["meth"], obj)
+            fr = FakeFrame(code, {"self": obj, "x": 1}, g, None, _ret_offset(code))
+            tracer(fr, "call", None)
+            tracer(fr, "return", 1)
         elif pos == "receiver":
             code = type(obj).meth.__code__
             fr = FakeFrame(code, {"self": obj, "x": 1}, _Globals())
@@ -310,13 +344,15 @@ def hookfree_body(t, k):
     finally:
         for mod in installed:
             del mod.__dict__["isinstance"]
+        mt_log.removeHandler(handler)
+        mt_log.setLevel(saved_level)
     journal = list(TW.JOURNAL)
     del TW.JOURNAL[:]
     return check(not journal, lambda: f"the tracer ran user-defined code of a {kname} object at position '{pos}': {journal[:4]}"
                                       f"{' ... (%d hook calls)' % len(journal) if len(journal) > 4 else ''}")
 
 
-tape_harness("hookfree", [("t", 2)], {"k": "int"}, hookfree_body, globals())
+tape_harness("hookfree", [("t", 3)], {"k": "int"}, hookfree_body, globals())
 
 
 def validate_models():
